@@ -673,9 +673,36 @@ def hist_model_checking(ctx):
                init="HInit", nxt="HNext")
 
 
+def known_finding_examples_job(ctx, prop, invariants):
+    """the example history of every open finding of this property is replayed on every run, so that the
+    KNOWN-FINDING line appears exactly as long as the defect persists"""
+    import json
+    import os
+    from engine import DEFAULT_CFG
+    from vlib import WORK, cfg_json, cps, load_known_findings
+    path = os.path.join(WORK, "kf_%s_p%d.ndjson" % (prop, os.getpid()))
+    n = 0
+    with open(path, "w") as f:
+        for kf in load_known_findings():
+            ex = kf.get("signature", {}).get("example")
+            if kf.get("status") != "open" or kf.get("property") != prop or not ex or "chain" not in ex:
+                continue
+            cfg = dict(DEFAULT_CFG, ds=ex["ds"], de=ex["de"], tl=ex["tl"], rm=ex["rm"], off=ex.get("off", "+00:00"), targets=[])
+            chain = ex["chain"]
+            ops = [{"op": "config", "now": chain[-1]["now"], "targets": [cps(t) for t in chain[-1]["targets"]]}, {"op": "clean"}]
+            for st in chain:
+                ops += [{"op": "config", "now": st["now"], "targets": [cps(t) for t in st["targets"]]}, {"op": "commit"}, {"op": "clean"}]
+            f.write(json.dumps({"id": "known-finding:" + kf["id"], "gen": "known-finding", "src": cps(ex["src"]),
+                                "cfg": cfg_json(cfg), "ops": ops}) + "\n")
+            n += 1
+    if n:
+        ctx.job("known-finding-examples", gens=[{"file": path}], invariants=invariants, nontrivial=None)
+
+
 def check_C19(ctx):
     q = ctx.quick
     hist_model_checking(ctx)
+    known_finding_examples_job(ctx, "C19", ["Inv_C19"])
     cfg = {"ds": "<", "de": ">", "targets": []}
     sets = [
         ("hist-time", lines_gen(6 if q else 8, 2, 2 if q else 3, ["T1", "T2", "T3"], blank=False)),
